@@ -48,7 +48,8 @@ Qed.
 Lemma enc_octets_like_shape o v b s ic : octets_of v = Some b -> enc_octets_like o v = Ok (s, ic) ->
   (ic = false /\ s = b /\ (o_chunk o = 0 \/ (length b <= N.to_nat (o_chunk o))%nat)) \/
   (ic = true /\ o_chunk o <> 0 /\
-   s = concat (map (tlv Univ false 4) (segs (S (length b)) (N.to_nat (o_chunk o)) b))).
+   s = concat (map (tlv Univ false 4) (segs (S (length b)) (N.to_nat (o_chunk o)) b)) /\
+   (N.to_nat (o_chunk o) < length b)%nat).
 Proof.
   intros Ho H. unfold enc_octets_like in H. rewrite Ho in H.
   destruct (N.eqb_spec (o_chunk o) 0) as [Ez|Ez]; cbn [orb] in H.
@@ -56,7 +57,7 @@ Proof.
   - destruct (Nat.leb_spec (length b) (N.to_nat (o_chunk o))) as [Hle|Hgt].
     + left. injection H as <- <-. auto.
     + right. destruct (enc_string_chunked v (N.to_nat (o_chunk o))) as [s1|] eqn:E; cbn [bind] in H; [|discriminate H].
-      injection H as <- <-. split; [reflexivity|split; [exact Ez|]].
+      injection H as <- <-. split; [reflexivity|split; [exact Ez|split; [|exact Hgt]]].
       apply (string_chunked_is_segs v b _ s1 Ho E).
 Qed.
 
@@ -64,7 +65,8 @@ Lemma enc_bits_shape o bs s ic : enc_bits o bs = Ok (s, ic) ->
   (ic = false /\ s = enc_bits_prim bs /\
    (o_chunk o = 0 \/ (length bs + pad_of (length bs) <= N.to_nat (o_chunk o) * 8)%nat)) \/
   (ic = true /\ o_chunk o <> 0 /\
-   s = concat (map (tlv Univ false 3) (map enc_bits_prim (chunks (S (length bs)) (N.to_nat (o_chunk o) * 8) bs)))).
+   s = concat (map (tlv Univ false 3) (map enc_bits_prim (chunks (S (length bs)) (N.to_nat (o_chunk o) * 8) bs))) /\
+   (N.to_nat (o_chunk o) * 8 < length bs + pad_of (length bs))%nat).
 Proof.
   intros H. unfold enc_bits in H. cbv zeta in H.
   destruct (N.eqb_spec (o_chunk o) 0) as [Ez|Ez]; cbn [orb] in H.
@@ -72,7 +74,7 @@ Proof.
   - destruct (Nat.leb_spec (length bs + pad_of (length bs)) (N.to_nat (o_chunk o) * 8)) as [Hle|Hgt].
     + left. injection H as <- <-. auto.
     + right. match type of H with bind ?F _ = _ => destruct F as [s1|e1] eqn:E end; cbn [bind] in H; [|discriminate H].
-      injection H as <- <-. split; [reflexivity|split; [exact Ez|]].
+      injection H as <- <-. split; [reflexivity|split; [exact Ez|split; [|exact Hgt]]].
       apply (fold_pieces_ok 3 enc_bits_prim) in E. cbn [app] in E. subst s1. rewrite map_map. reflexivity.
 Qed.
 
@@ -204,7 +206,7 @@ Lemma octets_like_reads (B: ty) (u: N) o v b content ic :
   reads_as B (AOcts b) (base_enc B ic (negb (o_def o)) content).
 Proof.
   intros Hprim Hcons Hu Ho He Hl.
-  destruct (enc_octets_like_shape o v b content ic Ho He) as [(-> & -> & _)|(-> & Hk & ->)].
+  destruct (enc_octets_like_shape o v b content ic Ho He) as [(-> & -> & _)|(-> & Hk & -> & _)].
   - rewrite base_enc_prim, Hu. apply Hprim. exact Hl.
   - rewrite base_enc_cons, Hu.
     assert (Hc: concat (segs (S (length b)) (N.to_nat (o_chunk o)) b) = b) by (apply concat_segs; lia).
@@ -248,7 +250,7 @@ Proof.
         (eexists; split; [|exact He]); try reflexivity; destruct (N.ltb 1 (o_chunk oc)); reflexivity. }
     destruct Hb as (Hfl & o' & Hdo & Hb). split; [exact Hfl|split; [reflexivity|]]. intros Hl.
     rewrite <- Hdo. cbn [abs].
-    destruct (enc_bits_shape o' bs content ic Hb) as [(-> & -> & _)|(-> & Hk & ->)].
+    destruct (enc_bits_shape o' bs content ic Hb) as [(-> & -> & _)|(-> & Hk & -> & _)].
     + rewrite base_enc_prim. cbn [base_tag tnum utag].
       rewrite <- bitstring_contents_is_enc_bits_prim in *.
       destruct (bits_join_single bs) as (u & c1 & E & Hu & Hj). rewrite E in *.
@@ -374,6 +376,40 @@ Proof. unfold base_enc. destruct (ic && indef)%bool; rewrite !app_length; lia. Q
 
 Lemma base_tag_univ B : tcls (base_tag B) = Univ.
 Proof. destruct B; reflexivity. Qed.
+
+(* ====================================================================== *)
+(* 6. CER segmentation: full 1000-octet pieces and a last, non-empty one     *)
+(* ====================================================================== *)
+
+Lemma seg_ok_chunks {A} (g: list A -> bytes) (k: nat) : (0 < k)%nat ->
+  (forall p, length p = k -> length (g p) = 1000%nat) ->
+  (forall p, p <> [] -> (length p <= k)%nat -> (1 <= length (g p) <= 1000)%nat) ->
+  forall f l, l <> [] -> (length l < f)%nat -> seg_ok (map g (chunks f k l)) = true.
+Proof.
+  intros Hk Hfull Hlast. induction f as [|f IH]; intros l Hne Hf; [lia|].
+  rewrite (chunks_cons f k l Hne). cbn [map].
+  destruct (skipn k l) as [|y rest] eqn:Es.
+  - rewrite chunks_nil. cbn [map seg_ok].
+    assert (Hall: firstn k l = l).
+    { rewrite <- (firstn_skipn k l) at 2. rewrite Es, app_nil_r. reflexivity. }
+    rewrite Hall.
+    assert (Hle: (length l <= k)%nat).
+    { destruct (Nat.le_gt_cases (length l) k) as [H|H]; [exact H|].
+      assert (length (skipn k l) = length l - k)%nat by apply skipn_length. rewrite Es in H0. cbn [length] in H0. lia. }
+    destruct (Hlast l Hne Hle) as [H1 H2].
+    apply andb_true_iff. split; apply Nat.leb_le; assumption.
+  - assert (Hlen: (k < length l)%nat).
+    { destruct (Nat.lt_ge_cases k (length l)) as [H|H]; [exact H|].
+      rewrite skipn_all2 in Es by exact H. discriminate Es. }
+    assert (Hfl: length (firstn k l) = k) by (rewrite firstn_length; lia).
+    assert (Hrec: seg_ok (map g (chunks f k (y :: rest))) = true).
+    { apply IH; [discriminate|]. rewrite <- Es, skipn_length. lia. }
+    destruct f as [|f']; [cbn [length] in Hf; lia|].
+    rewrite (chunks_cons f' k (y :: rest)) in * by discriminate. cbn [map] in *.
+    change (seg_ok (g (firstn k l) :: g (firstn k (y :: rest)) :: map g (chunks f' k (skipn k (y :: rest)))))
+      with (Nat.eqb (length (g (firstn k l))) 1000 && seg_ok (g (firstn k (y :: rest)) :: map g (chunks f' k (skipn k (y :: rest)))))%bool.
+    rewrite Hrec, (Hfull _ Hfl), Nat.eqb_refl. reflexivity.
+Qed.
 
 Print Assumptions string_encoder.
 Print Assumptions leaf_reads.
